@@ -182,6 +182,7 @@ def _process_atom_selfies_no_cache(symbol: str):
 
 @contract("selfies/grammar_rules.py::process_atom_symbol", props=["C01", "C02", "C08", "C10", "C11", "C19"])
 def process_atom_symbol(symbol: str):
+    opaque("cap_key")
     returns('None|tuple[tuple[int,str|None],Atom]')
     requires(ascii_str(symbol) and len(symbol) <= 4000)
     requires(table_ok(_current_constraints) and atom_cache_ok())
